@@ -6,7 +6,7 @@ PROPERTY_RULES = {
     "C01": ["r_a10", "r_a9", "r_a8", "r_a2", "r_o3", "r_a12", "r_a13", "r_a4"],
     "C02": ["r_a6", "r_a4", "r_a8", "r_a2", "r_o3", "r_e1", "r_b1", "r_a13", "r_a14"],
     "C03": ["r_a2", "r_a3", "r_a8", "r_a14"],
-    "C04": ["r_a8", "r_e1", "r_a6"],
+    "C04": ["r_a8", "r_e1", "r_a6", "r_a2", "r_b1", "r_o3"],
     "C05": ["r_b1", "r_o3", "r_a2", "r_a12"],
     "C06": ["r_b1", "r_o3", "r_a2"],
     "C07": ["r_a12", "r_a13", "r_a2", "r_a9", "r_a11"],
@@ -37,7 +37,8 @@ CLAUSES = {
            "uniqueness test; no handle is disposed early or twice; slices/conversions rebuild (ptr, len) / Vec lengths from the view's own extent",
     "C04": "every write to BytesMut.{ptr,len,cap} is justified (bounded by the allocation, paired with its companions, bytes moved before the pointer, "
            "non-overlap guard before copy_nonoverlapping); split halves use one cut operand; merge needs all four adjacency conjuncts; Clone never shares; "
-           "the reservation helper returns false only on paths without any state write and true only through a justified cap write; request arithmetic cannot wrap",
+           "the reservation helper returns false only on paths without any state write and true only through a justified cap write; request arithmetic cannot wrap; "
+           "the reclaiming paths take the allocation over only behind an Acquire uniqueness test on a count that is kept by atomic read-modify-writes (A2, B1, O3)",
     "C07": "no byte-buffer allocation and no byte copy is reachable from any zero-copy operation (vtable dispatch expanded), apart from verified exempt "
            "edges; clone returns the (ptr, len) it was given; slice/slice_ref re-base by exactly the range start; empty split_off/split_to "
            "results are built at self.ptr + at / self.ptr",
